@@ -27,6 +27,8 @@ def run (m : Mode) (proto : String) (b : Bytes) : R :=
   | none => .err
   | some (t, _) =>
     if depth t > maxNested then .err else
+    -- the receive path decodes the outer item as []RawMessage: tag numbers in front are skipped
+    let t := if m.tags then stripTags t else t
     match msgTypeOf m t with
     | none => .err
     | some ty =>
